@@ -147,7 +147,7 @@ class ExprMixin:
                      "yields_items_of", "mapped", "induct", "assume_axiom", "chunk_off", "defined_len", "is_permutation",
                      "bo_fields", "bo_order", "bo_bytes", "bo_swapped", "bo_value", "bo_big", "bo_little", "bo_native",
                      "bo_names", "machine_little", "approx", "psum", "gl_nodes", "gl_weights", "field_names", "field_type", "field_subshape",
-                     "path_exists"}
+                     "path_exists", "path_expanded"}
 
     def eval_module_expr(self, m, st, fr):
         """a module-level constant defined by an expression (PI = math.pi; D2R = PI / 180.0): evaluated in the module's scope"""
